@@ -311,6 +311,27 @@ class Enc5Part(EncPart):
     dec_engine = "dec5"
 
 
+class ShortenPart(Enc5Part):
+    """pairs (full, bare) of the same packet under the same peer maximum: if the crate encodes the bare packet it
+    must also encode the full one (leaving out diagnostics as needed) -- a refusal with OverMaxPacketSize of the
+    full packet while the bare one goes out breaks the shortening rule"""
+    pairs = ()
+
+    def batch_oracle(self, cases, impl, verdicts):
+        verdicts = list(super().batch_oracle(cases, impl, verdicts))
+        idx = {}
+        for i, c in enumerate(cases):
+            idx.setdefault(c, i)
+        for full, bare in self.pairs:
+            i, j = idx.get(full), idx.get(bare)
+            if i is None or j is None or not verdicts[i].startswith("1"):
+                continue
+            fo, bo = impl[i].split(";")[0].split(","), impl[j].split(";")[0].split(",")
+            if bo[0] == "0" and fo[0] == "1":
+                verdicts[i] = "0,11"
+        return verdicts
+
+
 class SimplePart(Part):
     vm_slice = 200
     has_oracle = False
@@ -341,6 +362,8 @@ ENC_CLAUSES = {
     "6": "more payload bytes written than declared",
     "7": "a packet was written inside a streamed PUBLISH payload",
     "8": "the frame exceeds the peer's Maximum Packet Size",
+    "11": "the encode was refused although the same packet without Reason String / User Properties fits the peer's "
+          "maximum: leaving out the diagnostics would have been enough",
     "10": "an acknowledgement carries Reason String / User Properties although the CONNECT declined problem information",
     "9": "the bytes produced for a packet do not decode (validated decoder model) to the packet that was encoded",
 }
